@@ -9,6 +9,8 @@ emitted for the same stream id; an acknowledged local INITIAL_WINDOW_SIZE
 change reaches every live stream as new - old; remote_flow_control_window is
 the minimum of the two managers.
 """
+import ast
+
 from .. import terms as T
 from . import common as cm
 from . import flow
@@ -73,6 +75,20 @@ def run(ctx, eng):
                     st[0][0] != 'RECV_DATA':
                 bad.append('stream window charged before the state machine '
                            'accepted the DATA')
+            elif st:
+                # an overrun is a FLOW_CONTROL_ERROR whatever else is wrong
+                # with the frame: nothing that can refuse it stands between
+                # the state step and the charge
+                between = [e for e in p.events[p.index(st[0][1]) + 1:
+                                               p.index(c)]
+                           if e.kind == 'call' and (
+                               e.d.get('raises') or any(
+                                   eng.R.of(q) for q in e.names
+                                   if isinstance(q, str)))]
+                if between:
+                    bad.append('%s can refuse the frame before the window '
+                               'is charged' % '/'.join(sorted(
+                                   cm.ev_callee_names(between[0]))))
         if p.exit != 'raise' and not wc:
             bad.append('a path accepts DATA without charging the stream '
                        'window')
@@ -370,13 +386,48 @@ def run(ctx, eng):
                  for p in eng.I.run(fx))
         ctx.ob('FLOW.min', fx.qual, 'reports the manager\'s window', ok, exp,
                node=fx.node)
+    # ---- who moves the connection-level inbound window: it is charged by
+    # DATA, credited by WINDOW_UPDATEs we emit (manual or automatic), and by
+    # nothing else - INITIAL_WINDOW_SIZE does not apply to it (RFC 7540 6.9.2)
+    allowed = {('increment_flow_control_window', 'window_opened'),
+               ('acknowledge_received_data', 'process_bytes'),
+               ('_handle_data_on_closed_stream', 'process_bytes'),
+               ('_receive_data_frame', 'window_consumed')}
+    found = set()
+    cls = m.cls('connection.H2Connection')
+    for name, fx in sorted(m.methods_of(cls.qual).items()):
+        if not any(isinstance(n, ast.Attribute) and
+                   n.attr == '_inbound_flow_control_window_manager'
+                   for n in ast.walk(fx.node)):
+            continue
+        for p in eng.I.run(fx):
+            for e in p.events:
+                if e.frame != fx.qual:
+                    continue
+                if e.kind == 'call' and e.d.get('recv') is not None and \
+                        cm.attr_chain(e.recv) == MGR:
+                    for cn in cm.ev_callee_names(e):
+                        found.add((name, cn))
+                elif e.kind == 'write' and cm.attr_chain(e.base) == MGR:
+                    found.add((name, 'writes .%s' % e.attr))
+    found = {x for x in found if x[0] != '__init__'}
+    extra = sorted(found - allowed)
+    ctx.ob('OWN.conn-window', 'connection.H2Connection.'
+           '_inbound_flow_control_window_manager', 'who moves it',
+           not extra and ('_receive_data_frame', 'window_consumed') in found,
+           'charged by DATA, credited through WINDOW_UPDATEs only%s' % (
+               (' (also: %s)' % extra) if extra else ''))
     ctx.assume('equality of advertised and enforced windows over whole '
                'histories follows by induction from these clauses; the '
                'induction is not mechanised')
     cm.include(ctx, eng, 'C11',
                lambda o: o.rule in ('FLOW.queue', 'FLOW.ack-source') or (
                    o.rule == 'COH.apply-map' and
-                   o.desc.startswith('local INITIAL_WINDOW_SIZE ')),
+                   o.desc.startswith('local INITIAL_WINDOW_SIZE ')) or (
+                   # a refused update_settings queues nothing: what is
+                   # acknowledged later was advertised
+                   o.rule == 'ATOM.SET' and
+                   o.desc.startswith('all values validated')),
                'the advertised initial window is the acknowledged one: the '
                'settings queue hands out one pending value per ACK, in order')
     cm.include(ctx, eng, 'C05', {'ARITH.increment', 'FLOW.process',
